@@ -1,2 +1,18 @@
 import Hive.Model.Ads
-def main : IO Unit := Hive.Proto.run Hive.Ads.Sess.init Hive.Ads.stepLine
+import Hive.Model.AdsTrieLine
+open Hive.Ads
+
+/-- Requests of the glue part (`open`, `set`, …) and of the trie part (`topen`, `tput`, …) are
+answered by their own models; a case uses one of the two. -/
+def stepBoth (s : Sess × SMT.TSess) (toks : List String) : (Sess × SMT.TSess) × String :=
+  match toks with
+  | verb :: _ =>
+    if verb.startsWith "t" then
+      let (t', o) := SMT.tstepLine s.2 toks
+      ((s.1, t'), o)
+    else
+      let (g', o) := stepLine s.1 toks
+      ((g', s.2), o)
+  | [] => (s, "bad-op")
+
+def main : IO Unit := Hive.Proto.run (Sess.init, SMT.TSess.init) stepBoth
